@@ -9,24 +9,35 @@ Import ListNotations.
    types, [calls_ok]), every depth of observation —
    under every schedule the completed calls returned their solo results, and while a call
    is outstanding some thread can take a state-changing step (no deadlock);
-   every fair schedule of fuel_bound rounds completes all calls with their solo results *)
+   every weakly fair schedule (rounds, each scheduling every thread at least once; this is
+   the ONLY assumption on the scheduler, and none is made on the order in which sc.mu is
+   granted: a released lock goes to whichever blocked or arriving thread runs next) of
+   fuel_bound rounds completes all calls with their solo results;
+   and beyond the shape of the results: all calls on a type are handed the same schema
+   object, and an object that has been handed out unfolds to its type at every depth at every
+   later point of the run (completely linked, never modified again) *)
 Definition C10_logic_statement (d : disc) : Prop :=
   forall k g calls, calls_ok calls ->
     (forall sched t, exists j, nth t (results (run d k g calls sched)) [] =
                                map (result_solo k g) (firstn j (nth t calls []))) /\
     (forall sched, all_done (run d k g calls sched) = false ->
        exists t, t < length calls /\ gstep d k g t (run d k g calls sched) <> run d k g calls sched) /\
-    (forall rounds, Forall (covers (length calls)) rounds -> fuel_bound g calls <= length rounds ->
+    (forall rounds, weakly_fair (length calls) rounds -> fuel_bound g calls <= length rounds ->
        all_done (run d k g calls (concat rounds)) = true /\
-       results (run d k g calls (concat rounds)) = map (map (result_solo k g)) calls).
+       results (run d k g calls (concat rounds)) = map (map (result_solo k g)) calls) /\
+    (forall sched t1 t2 n c1 c2,
+       In (t1, n, c1) (rets d k g calls sched) -> In (t2, n, c2) (rets d k g calls sched) -> c1 = c2) /\
+    (forall sched t n c, In (t, n, c) (rets d k g calls sched) ->
+       forall later dd, unfold dd (heap (s_sh (run d k g calls (sched ++ later)))) c = gunfold dd g n).
 
-(* memory level: the accesses of any run — to the schema map, to SchemaCache.registered,
+(* memory level: the accesses of any run — to sc.packages, to the Schemas map of every package
+   (for every assignment pk of type names to packages), to SchemaCache.registered,
    to the To field of every RefSchema, inside Schema and by the callers that walk the
    returned schema afterwards — are free of data races under happens-before = program
    order + "Unlock is synchronized before a later Lock" (the Go memory model's rule for
    sync.Mutex), and every To field is written once *)
 Definition C10_memory_statement (d : disc) : Prop :=
-  forall k g calls sched, calls_ok calls ->
-    race_free (events d k g calls sched) /\ write_once (events d k g calls sched).
+  forall pk k g calls sched, calls_ok calls ->
+    race_free (events d pk k g calls sched) /\ write_once (events d pk k g calls sched).
 
 Definition C10_full_statement (d : disc) : Prop := C10_logic_statement d /\ C10_memory_statement d.
